@@ -650,7 +650,9 @@ def bayer_tiling_rule(chk, repo, clause):
 
 def _opaque_lookup(v):
     """the value goes through a callable / record fetched from a container the interpreter did not evaluate"""
-    return any(is_app(a, ('callv', 'm:get')) or (a[0] == 'attr' and a[1][0] == 'fresh') for a in nf.value_atoms(v))
+    return any(is_app(a, ('callv', 'm:get')) or (a[0] == 'attr' and a[1][0] == 'fresh') or
+               (a[0] == 'idx' and a[1][0] == 'sym' and '.' in a[1][1] and a[1][1].split('.')[-1].isupper())      # MODULE_TABLE[key] left as it is
+               for a in nf.value_atoms(v))
 
 
 def vegaflux_rule(chk, repo, clause):
